@@ -98,10 +98,15 @@ def ob_classical(f):
     def call(i):
         g = XORGame(i["p"], f.astype(float), tol=1e-12)
         ng = g.to_nonlocal_game()
-        return [g.classical_value(), ng.classical_value()]
+        # the converted object is queried twice: a value method may not alter the game it is asked about
+        return [g.classical_value(), ng.classical_value(), ng.classical_value(), np.asarray(ng.pred_mat), np.asarray(ng.prob_mat)]
 
     def oracle(i):
         return None
+
+    Vx = np.zeros((2, 2, q0, q1))
+    for a_, b_, x_, y_ in itertools.product(range(2), range(2), range(q0), range(q1)):
+        Vx[a_, b_, x_, y_] = 1.0 if (a_ ^ b_) == int(f[x_, y_]) else 0.0
 
     def values(i):
         p = np.asarray(i["p"])
@@ -117,10 +122,11 @@ def ob_classical(f):
 
     def post(res, exp, i):
         vals = values(i)
-        v, w = res
+        v, w, w2, pm, qm = res
         if isinstance(v, (float, int, np.floating)):
-            return abs(v - max(vals)) < 1e-9 and abs(v - w) < 1e-12
-        return And(*[lift(v) >= u for u in vals]) & Or(*[lift(v).eq_solver(u) for u in vals]) & lift(v).eq_solver(w)
+            return abs(v - max(vals)) < 1e-9 and abs(v - w) < 1e-12 and abs(w2 - w) < 1e-12 and np.array_equal(pm, Vx) and np.array_equal(qm, i["p"])
+        return And(*[lift(v) >= u for u in vals]) & Or(*[lift(v).eq_solver(u) for u in vals]) & lift(v).eq_solver(w) & lift(w2).eq_solver(w) \
+            & eq(pm, Vx) & eq(qm, i["p"])
 
     def assume(i):
         p = np.asarray(i["p"])
@@ -317,6 +323,10 @@ def bell_instances():
         ("generic correlator with marginals, +-1 outcomes", np.array([[1.0, 0.5], [-0.25, 2]]), np.array([0.5, -1.0]), np.array([0.25, 0.125]), np.array([1.0, -1]), np.array([1.0, -1])),
         ("Clauser-Horne form, 0/1 outcomes", np.array([[1.0, 1], [1, -1]]), np.array([-1.0, 0]), np.array([-1.0, 0]), np.array([1.0, 0]), np.array([1.0, 0])),
         ("asymmetric values", np.array([[0.5, -1], [2, 0.25]]), np.array([0.0, 0.5]), np.array([1.0, 0]), np.array([1.0, 0]), np.array([-1.0, 1])),
+        # INTEGER arrays for the joint coefficients and the outcome values (as in the docstring), fractional marginal coefficients
+        ("integer-typed joint coefficients and outcome values, half-integer marginals", np.array([[1, 2], [2, -1]]), np.array([-1.5, 0.5]), np.array([-0.5, 0.25]),
+         np.array([1, 0]), np.array([1, 0])),
+        ("all-integer arrays, 0/1 outcomes (docstring form)", np.array([[1, 1], [1, -1]]), np.array([-1, 0]), np.array([-1, 0]), np.array([1, 0]), np.array([1, 0])),
     ]
 
 
